@@ -333,8 +333,8 @@ def generate(repo):
     out.append("   executors/{opcodes_impl,instruction}.rs, verification.rs, storage/{predicate,memory}.rs on every check — DO NOT EDIT. *)")
     out.append("From Coq Require Import NArith List String.")
     out.append("Import ListNotations.")
-    out.append("Open Scope N_scope.")
-    out.append("Open Scope string_scope.")
+    out.append("Local Open Scope N_scope.")
+    out.append("Local Open Scope string_scope.")
     out.append("")
     out.append("(* opcode bytes *)")
     for byte, name, _ in ops:
